@@ -10,6 +10,7 @@ import (
 
 	wtfctx "github.com/Vedant9500/WTF/internal/context"
 	"github.com/Vedant9500/WTF/internal/database"
+	"github.com/Vedant9500/WTF/internal/nlp"
 )
 
 // C13, engine half, on the REAL engine (independent of the model):
@@ -279,6 +280,20 @@ func monitorC13(mon *Mon, cur *SearchRecord, prev []*SearchRecord) {
 		}
 	}
 	mon.Tag("c13-pair-factors-ge1")
+	// hypothesis of theorem `monotone` on the real values: the per-document NLP factors are non-negative
+	if cur.Opts.UseNLP {
+		pq := nlp.NewQueryProcessor().ProcessQuery(strings.ToLower(strings.TrimSpace(cur.Query)))
+		for _, id := range with.IDs {
+			if id < 0 {
+				continue
+			}
+			c := &cur.DB.Commands[id]
+			ib, cb := database.VerifIntentBoost(c, pq), cur.DB.VerifCascadeBoost(c, pq)
+			if !(ib >= 0) || !(cb >= 0) {
+				mon.Hit("C13", "hypothesis-nlp-factor-negative", det(map[string]interface{}{"doc": id, "intent_boost": ib, "cascade_boost": cb}))
+			}
+		}
+	}
 	scoreWithout := map[int]float64{}
 	for i, id := range without.IDs {
 		if _, dup := scoreWithout[id]; !dup {
